@@ -11,10 +11,20 @@ What is proved, clause by clause of the property statement:
   and `*_canonical`: therefore EVERY sort routine (any ordered permutation - stable or not, any Go
   release) returns the same list for every permutation of an input with pairwise distinct keys.
 * "regardless of the order in which the objects were created or listed, of map iteration order": for the
-  modelled folds over Go maps (`fold_perm_*`) and for five small models of real generation pipelines
+  modelled folds over Go maps (`fold_perm_*`) and for six small models of real generation pipelines
   (`Deterministic ...`: service index, shared-address virtual hosts, ClusterLoadAssignment, EnvoyFilter
-  order, TrafficExtension order) the output is the same for every permutation of the listing / every
-  enumeration of the map.  Each model is tied to the real functions by an op of stream `cmp`.
+  order, TrafficExtension order, DestinationRule merge) the output is the same for every permutation of
+  the listing / every enumeration of the map.  Each model is tied to the real functions by an op of
+  stream `cmp`.
+  HOW MUCH THESE SAY.  Every pipeline sorts first and folds afterwards, and every `*_deterministic`
+  theorem is a COROLLARY OF SORT CANONICITY: it rewrites the sorted list and never looks at the fold, so
+  it would hold for any fold placed after the sort.  What they establish is that the comparator in front
+  of the fold leaves no tie on the stated key.  What the fold itself computes is stated separately, where
+  there is a fold worth the name: `serviceIndex_winner` (P1: which service wins a hostname),
+  `vipOwners_spec` / `vipOwners_owner_least` (P2: which virtual host keeps a shared address),
+  `mergedFor_src` / `mergedFor_policy` / `mergedFor_subset_owner` (P6: merge order, first traffic policy
+  wins, first definition of a subset wins).  P3 groups by locality (`fold_perm_groupByLocality`); P4 and P5
+  are two sorts in a row and have no fold beyond concatenation and filtering.
 * NOT proved (explored by stream `perm`): that every other path of the real generators has this shape;
   "which control-plane instance or process performs it" (two processes are compared, nothing is proved
   about Go's runtime); byte-level protobuf marshalling.
@@ -321,7 +331,8 @@ theorem fold_perm_sortedLKeys {l₁ l₂ : List LKey} (p : l₁.Perm l₂) : sor
 /-! ### P1: services -> ServiceIndex                                                  (ops `sidx`, `alias`) -/
 
 /-- **Pipeline P1 is deterministic**: every listing of the same services (no two sharing the whole
-    comparator key) gives the same `ServiceIndex.HostnameAndNamespace`. -/
+    comparator key) gives the same `ServiceIndex.HostnameAndNamespace`.  (Corollary of sort canonicity; the
+    fold is specified by `serviceIndex_winner`.) -/
 theorem serviceIndex_deterministic : Deterministic serviceIndex (KeysDistinct Svc.key) := by
   intro l₁ l₂ hd p
   unfold serviceIndex
@@ -361,11 +372,38 @@ theorem cmp_total_vsvcHost : TotalOnKey (cmpOfLess vsvcLess) (fun s : VSvc => s.
   (strCmp_total (fun s : VSvc => s.host)).congr (fun a b => (cmpOfLess_str (fun s : VSvc => s.host) a b).symm)
 
 /-- **Pipeline P2 is deterministic**: hostnames are the keys of the `serviceRegistry` map; every
-    enumeration of the map leaves a shared address with the same virtual host. -/
+    enumeration of the map leaves a shared address with the same virtual host.  (Corollary of sort
+    canonicity; the fold is specified by `vipOwners_spec`.) -/
 theorem vipOwners_deterministic : Deterministic vipOwners (KeysDistinct (fun s : VSvc => s.host)) := by
   intro l₁ l₂ hd p
   unfold vipOwners
   rw [sort_canonical_less_aux cmp_total_vsvcHost (isort_isSort_less_aux cmp_total_vsvcHost) hd p]
+
+/-- ... and what the fold computes is the specified owner: a virtual host keeps its service's address iff the
+    address is not empty and the service is the first, in hostname order, of the services with that address.
+    (This is about `claimVips`, the fold after the sort - `vipOwners_deterministic` alone would hold for any fold.) -/
+theorem vipOwners_spec (enum : List VSvc) (nd : (enum.map (·.host)).Nodup) :
+    vipOwners enum = (isort vsvcLess enum).map (fun s => (s.host, keepsVip [] (isort vsvcLess enum) s)) := by
+  unfold vipOwners
+  exact claimVips_spec _ [] (((isort_perm vsvcLess enum).map _).nodup_iff.2 nd)
+
+/-- The first claimant in hostname order is the claimant with the least hostname: no service with the same
+    address has a smaller hostname than the owner. -/
+theorem vipOwners_owner_least (enum : List VSvc) (v h : String)
+    (e : firstClaimant v (isort vsvcLess enum) = some h) : ∀ s ∈ enum, s.vip = v → ¬ s.host < h := by
+  intro s hs hv
+  exact firstClaimant_least v _ h ((isort_isSort_less_aux cmp_total_vsvcHost).sorted enum) e s
+    ((isort_perm vsvcLess enum).mem_iff.2 hs) hv
+
+/-- Non-vacuity: three hosts of one ServiceEntry share its address, a fourth has its own; the least hostname keeps
+    the shared address whatever the enumeration. -/
+example :
+    let a : VSvc := { host := "ext2.example.com", vip := "240.240.0.1" }
+    let b : VSvc := { host := "api.example.com", vip := "240.240.0.1" }
+    let c : VSvc := { host := "db.example.com", vip := "240.240.0.1" }
+    let d : VSvc := { host := "www.example.com", vip := "240.240.0.9" }
+    vipOwners [a, b, c, d] = [("api.example.com", true), ("db.example.com", false), ("ext2.example.com", false), ("www.example.com", true)] ∧
+    vipOwners [d, c, a, b] = vipOwners [a, b, c, d] := by decide +kernel
 
 /-- `<=` used as `less` (httproute.go) is not a strict order ... -/
 theorem le_as_less_witness : hostLeLess "a.example.com" "a.example.com" = true := by decide
@@ -415,7 +453,8 @@ theorem claEndpoints_deterministic : Deterministic claEndpoints ShardsValid := b
   rw [perm_short_eq pk (filter_key_length_le_one k _ nd₁)]
 
 /-- **Pipeline P3 is deterministic**: every enumeration of the `Shards` map and of `localityEpMap`
-    gives the same ClusterLoadAssignment (order of localities, order of endpoints inside them). -/
+    gives the same ClusterLoadAssignment (order of localities, order of endpoints inside them).  (Sort
+    canonicity of the shard keys and of the locality names, plus: a map has one shard per key.) -/
 theorem cla_deterministic {s₁ s₂ : List (ShardKey × List Ep)} {e₁ e₂ : List String}
     (nd : ShardsValid s₁) (p : s₁.Perm s₂) (pe : e₁.Perm e₂) :
     clusterLoadAssignment s₁ e₁ = clusterLoadAssignment s₂ e₂ := by
@@ -461,7 +500,12 @@ theorem efPerNs_deterministic (ns : String) {l₁ l₂ : List EF} (hd : EFValid 
   · exact p.filter _
 
 /-- **Pipeline P4 is deterministic** - although its second comparator is not total: its input is the
-    canonical concatenation of the per-namespace lists, and a sort routine is a function. -/
+    canonical concatenation of the per-namespace lists, and a sort routine is a function.  (Corollary of sort
+    canonicity of the FIRST sort only.  The second sort is modelled by the stable `isort`; the real one is
+    `sort.Slice`, which is not stable above 12 elements: where `efMergeLess` ties - the same instant in two
+    representations, `cmp_witness_envoyFilterMergeLess` - the model and the real code may order differently
+    while each is deterministic.  Stream `cmp` therefore emits listings of more than 12 filters only without
+    such ties.) -/
 theorem envoyFilterOrder_deterministic (root proxyNs : String) :
     Deterministic (envoyFilterOrder root proxyNs) EFValid := by
   intro l₁ l₂ hd p
@@ -483,7 +527,8 @@ theorem cmp_witness_trafficExtensionPriority :
 
 def TEValid (l : List TE) : Prop := KeysDistinct (fun t : TE => (t.name, t.ns)) l
 
-/-- **Pipeline P5 is deterministic.** -/
+/-- **Pipeline P5 is deterministic.**  (Corollary of sort canonicity of the creation-time sort; the priority
+    sort after it is `sort.SliceStable`, modelled by the stable `isort`.) -/
 theorem trafficExtensions_deterministic (root proxyNs : String) (phase : Nat) :
     Deterministic (fun l => trafficExtensions root proxyNs l phase) TEValid := by
   intro l₁ l₂ hd p
@@ -492,6 +537,88 @@ theorem trafficExtensions_deterministic (root proxyNs : String) (phase : Nat) :
   rw [sort_canonical_key_aux cmp_total_trafficExtensionByCreationTime
     (isort_isSort_aux cmp_total_trafficExtensionByCreationTime.weakOrder)
     (fun a b ha hb hne e => hd a b ha hb hne (congrArg Prod.snd e)) p]
+
+/-! ### P6: DestinationRule listing -> the merged rule of one host                     (op `drm`) -/
+
+theorem cmp_total_destinationRules :
+    TotalOnKey drRuleCmp (fun d : DRule => (d.cfg.sel, d.cfg.time, d.cfg.name, d.cfg.ns)) :=
+  ⟨fun a b => cmp_total_configBySelector.eq_iff a.cfg b.cfg, fun a b => cmp_total_configBySelector.swap a.cfg b.cfg,
+   fun a b c => cmp_total_configBySelector.trans a.cfg b.cfg c.cfg⟩
+
+/-- DestinationRules are unique by (name, namespace). -/
+def RulesDistinct (l : List DRule) : Prop := KeysDistinct (fun d : DRule => (d.cfg.name, d.cfg.ns)) l
+
+/-- The merge order of the rules of one host does not depend on the listing (a corollary of sort canonicity). -/
+theorem mergeGroup_deterministic (ns host : String) : Deterministic (mergeGroup ns host) RulesDistinct := by
+  intro l₁ l₂ hd p
+  unfold mergeGroup drLess
+  rw [sort_canonical_key_aux cmp_total_destinationRules (isort_isSort_aux cmp_total_destinationRules.weakOrder)
+    (fun a b ha hb hne e => hd a b ha hb hne (congrArg (fun k => k.2.2) e)) p]
+
+/-- **Pipeline P6 is deterministic** (again by sort canonicity; what the fold does is in the three theorems below). -/
+theorem mergedFor_deterministic (ns host : String) : Deterministic (mergedFor ns host) RulesDistinct := by
+  intro l₁ l₂ hd p
+  unfold mergedFor
+  rw [mergeGroup_deterministic ns host l₁ l₂ hd p]
+
+/-- The fold, part 1: `from` lists the rules of the host in merge order (oldest first; name, namespace on ties). -/
+theorem mergedFor_src (ns host : String) (listing : List DRule) (h : mergeGroup ns host listing ≠ []) :
+    (mergedFor ns host listing).map (·.src) = some ((mergeGroup ns host listing).map (·.cfg.id)) := by
+  unfold mergedFor mergeFold
+  cases hg : mergeGroup ns host listing with
+  | nil => exact absurd hg h
+  | cons d r =>
+    rw [List.foldl_cons]
+    show (r.foldl mergeStep (some _)).map (·.src) = _
+    rw [mergeFold_src_aux]
+    simp
+
+/-- The fold, part 2: the top-level traffic policy is the one of the first rule in merge order that has one
+    ("so if two destination rule have top level traffic policies we take the first one"). -/
+theorem mergedFor_policy (ns host : String) (listing : List DRule) (h : mergeGroup ns host listing ≠ []) :
+    (mergedFor ns host listing).map (·.policy) = some (firstPolicy (mergeGroup ns host listing)) := by
+  unfold mergedFor mergeFold
+  cases hg : mergeGroup ns host listing with
+  | nil => exact absurd hg h
+  | cons d r =>
+    rw [List.foldl_cons]
+    show (r.foldl mergeStep (some _)).map (·.policy) = _
+    rw [mergeFold_policy_aux]
+    simp [firstPolicy]
+
+/-- The fold, part 3: a subset name resolves to the subset of the first rule in merge order that defines it. -/
+theorem mergedFor_subset_owner (ns host s : String) (listing : List DRule) :
+    (mergedFor ns host listing).bind (fun m => lookupOwner s m.subsets) = firstWithSubset s (mergeGroup ns host listing) := by
+  unfold mergedFor mergeFold
+  cases hg : mergeGroup ns host listing with
+  | nil => simp [firstWithSubset]
+  | cons d r =>
+    rw [List.foldl_cons]
+    show (r.foldl mergeStep (some _)).bind (fun m => lookupOwner s m.subsets) = _
+    rw [mergeFold_owner_aux]
+    have := lookupOwner_new s d.cfg.id [] rfl d.subsets
+    have hf : d.subsets.filter (fun x => !([] : List String).contains x) = d.subsets :=
+      List.filter_eq_self.2 (fun x _ => by simp)
+    rw [hf] at this
+    show (lookupOwner s (d.subsets.map (fun s => (s, d.cfg.id)))).or _ = _
+    rw [this]
+    by_cases hc : s ∈ d.subsets
+    · simp [hc, firstWithSubset]
+    · simp [hc, firstWithSubset]
+
+/-- Non-vacuity: three rules for one host (and one for another host): the oldest has no traffic policy, the two
+    younger ones tie on age; subsets overlap. Every listing gives the same merged rule. -/
+example :
+    let mk (i t : Nat) (n h : String) (ss : List String) (p : String) : DRule :=
+      { cfg := { id := i, time := t, name := n, ns := "default", sel := false }, host := h, subsets := ss, policy := p }
+    let a := mk 0 1 "z-oldest" "ext1.example.com" ["v1"] ""
+    let b := mk 1 2 "b" "ext1.example.com" ["v1", "v2"] "100"
+    let c := mk 2 2 "a" "ext1.example.com" ["v3", "v2"] "200"
+    let d := mk 3 0 "other" "ext2.example.com" ["v1"] "300"
+    mergedFor "default" "ext1.example.com" [a, b, c, d] =
+      some { src := [0, 2, 1], subsets := [("v1", 0), ("v3", 2), ("v2", 2)], policy := "200" } ∧
+    mergedFor "default" "ext1.example.com" [d, c, b, a] = mergedFor "default" "ext1.example.com" [a, b, c, d] ∧
+    mergedFor "ns1" "ext1.example.com" [a, b, c, d] = none := by decide +kernel
 
 /-! ### The monitor of the permutation harness                                        (stream `mon`) -/
 
